@@ -26,10 +26,10 @@ def main():
     wt = "/var/tmp/penne-ev-%d" % os.getpid()
     bd = wt + ".build"
     meta = {"id": sid, "property": prop, "source": "independent sub-agent (given only the property text and a scratch worktree)",
-            "evaluated_at_repo_commit": sh("git -C /repo rev-parse --short HEAD").stdout.strip(),
+            "evaluated_at_repo_commit": sh("git -C /repo rev-parse --short %s" % os.environ.get("EVAL_REPO_AT", "HEAD")).stdout.strip(),
             "verif_commit": sh("git -C %s rev-parse --short HEAD" % VERIF).stdout.strip()}
     try:
-        sh("git -C /repo worktree add --detach %s HEAD" % wt)
+        sh("git -C /repo worktree add --detach %s %s" % (wt, os.environ.get("EVAL_REPO_AT", "HEAD")))   # EVAL_REPO_AT: /repo as it was when the change was written
         patch = os.path.join(src, "patch.diff")
         r = sh("git -C %s apply %s" % (wt, patch))
         meta["applies"] = r.returncode == 0
